@@ -741,6 +741,26 @@ static void op_tagged_cmpt(const VhLine *l) {
     if (c != want) {
         mon("C05", "memcmp order of composite keys is %d, tuple order %d", c, want);
     }
+    /* a field of a composite key re-encoded in place (same value, last field first - how an in-place update or a
+     * right-to-left assembly writes it) must leave the key as it is: an encoder that stores beyond the varint's
+     * length clobbers the next field and equal tuples stop being equal keys */
+    {
+        uint8_t kc[9 * 16 + 16];
+        memcpy(kc, ka, la);
+        size_t offs[16], o = 0;
+        for (int i = 0; i < k; i++) {
+            offs[i] = o;
+            o += varintTaggedLen(p_u64(arg(l, 2 + i)));
+        }
+        for (int i = k - 1; i >= 0; i--) {
+            varintTaggedPut64(kc + offs[i], p_u64(arg(l, 2 + i)));
+            if (memcmp(kc, ka, la) != 0) {
+                mon("C05", "re-encoding field %d of a composite key in place changed another field: equal tuples no "
+                           "longer have equal keys", i);
+                break;
+            }
+        }
+    }
 }
 
 /* ------------------------------------------------------------------ sweeps (digest only) */
